@@ -2,6 +2,12 @@
 """writes MANIFEST.json from the table below (keeps it valid and in one place)"""
 import json, os
 CHECKS = {
+ 'C05': dict(technique='transfer/advance pairing typestate on progress counters (R-STREAM-ADV), declared-length cap and close must-pass-through rule (R-STREAM-CAP)',
+             text='Decides for the TCP and WebSocket stream readers that every n bytes stored at buffer+counter are accounted by advancing that counter by the same '
+                  'n (or a reset) on every path, that peer-declared lengths are compared with a maximum before they size an allocation/copy/read with the '
+                  'exceeding arm closing the session, and that a full handshake line buffer is rejected. Necessary for segmentation independence and for '
+                  '"over-long closes the session"; equality of delivered message sequences over all segmentations is not decided.',
+             design='6 C05'),
  'C01': dict(technique='sibling/table agreement by constant-partition extraction and interval-guided arm-offset check (R-CODEC-TAB), narrowing-cast interval check (R-WIDTH), stale-pointer and size/payload pairing typestate (R-FIXUP)',
              text='Decides, on the current source, that every encoder and decoder of option delta/length, TCP length and token length uses the RFC 7252/8323/8974 '
                   'thresholds, nibbles and offsets (and therefore each other\'s), that the decoder\'s option-number bound as folded in its unit equals the '
